@@ -1,9 +1,9 @@
 #!/bin/bash
-# confirm_seed.sh <Cxx> [src-dir]: independently confirms a seeded change in a fresh scratch worktree:
+# confirm_seed.sh <Cxx> [src-dir] [out-name] [cargo feature args]: independently confirms a seeded change in a fresh scratch worktree:
 #  suite passes with the change, the demonstration fails with it and passes without it.
 # Writes /verif/seeded/<Cxx>/{patch.diff,seeded_demo.rs,meta.json(+confirmation)}.
 set -u
-ID=$1; SRC=${2:-/tmp/seed-out/$ID}
+ID=$1; SRC=${2:-/tmp/seed-out/$ID}; OUT=${3:-$ID}; FEAT=${4:-}
 WT=/tmp/wt-confirm-$ID
 git -C /repo worktree remove --force $WT 2>/dev/null
 git -C /repo worktree add -q $WT HEAD || exit 2
@@ -14,20 +14,22 @@ mkdir -p tests; cp $SRC/seeded_demo.rs tests/seeded_demo.rs
 export CARGO_NET_OFFLINE=true
 cargo test --offline --lib > /tmp/confirm-$ID-suite.log 2>&1
 SUITE=$(grep -E "^test result" /tmp/confirm-$ID-suite.log | head -1)
-cargo test --offline --test seeded_demo > /tmp/confirm-$ID-demo1.log 2>&1; D1=$?
+SUITE2="$SUITE"
+if [ -n "$FEAT" ]; then cargo test --offline --lib $FEAT > /tmp/confirm-$ID-suite2.log 2>&1; SUITE2=$(grep -E "^test result" /tmp/confirm-$ID-suite2.log | head -1); fi
+cargo test --offline --release $FEAT --test seeded_demo > /tmp/confirm-$ID-demo1.log 2>&1; D1=$?
 git checkout -q -- src
-cargo test --offline --test seeded_demo > /tmp/confirm-$ID-demo2.log 2>&1; D2=$?
+cargo test --offline --release $FEAT --test seeded_demo > /tmp/confirm-$ID-demo2.log 2>&1; D2=$?
 echo "suite: $SUITE"; echo "demo with change: exit $D1 (want != 0)"; echo "demo without change: exit $D2 (want 0)"
 OK=false
-if echo "$SUITE" | grep -q "120 passed; 0 failed" && [ $D1 -ne 0 ] && [ $D2 -eq 0 ]; then OK=true; fi
-mkdir -p /verif/seeded/$ID
-cp $SRC/patch.diff $SRC/seeded_demo.rs /verif/seeded/$ID/
+if echo "$SUITE" | grep -q "120 passed; 0 failed" && echo "$SUITE2" | grep -q "120 passed; 0 failed" && [ $D1 -ne 0 ] && [ $D2 -eq 0 ]; then OK=true; fi
+mkdir -p /verif/seeded/$OUT
+cp $SRC/patch.diff $SRC/seeded_demo.rs /verif/seeded/$OUT/
 python3 - <<PY
 import json
 m=json.load(open("$SRC/meta.json"))
-m["confirmed_by_builder"]={"suite":"$SUITE","demo_with_change_exit":$D1,"demo_without_change_exit":$D2,"ok":"$OK"=="true",
-  "commands":["git worktree add $WT HEAD; git apply patch.diff; cargo test --offline --lib; cargo test --offline --test seeded_demo; git checkout -- src; cargo test --offline --test seeded_demo"]}
-json.dump(m,open("/verif/seeded/$ID/meta.json","w"),indent=1)
+m["confirmed_by_builder"]={"suite":"$SUITE","demo_with_change_exit":$D1,"demo_without_change_exit":$D2,"ok":"$OK"=="true","features":"$FEAT","suite_with_features":"$SUITE2",
+  "commands":["git worktree add $WT HEAD; git apply patch.diff; cargo test --offline --lib; cargo test --offline --release $FEAT --test seeded_demo; git checkout -- src; cargo test --offline --release $FEAT --test seeded_demo"]}
+json.dump(m,open("/verif/seeded/$OUT/meta.json","w"),indent=1)
 PY
 cd /; git -C /repo worktree remove --force $WT
 echo "confirmed=$OK"
